@@ -147,6 +147,10 @@ func GenCreds(suites []ref.Suite) *rapid.Generator[Creds] {
 			}
 			c.KG = rapid.SliceOfN(rapid.Byte(), n, n).Draw(t, "kg")
 		}
+		if c.KG == nil && rapid.IntRange(0, 3).Draw(t, "emptyKG") == 0 {
+			// "no K_G" spelt as an empty, non-nil slice (an empty configuration value)
+			c.KG = []byte{}
+		}
 		c.Priv = uint8(rapid.IntRange(0, 5).Draw(t, "priv"))
 		c.Lookup = rapid.Bool().Draw(t, "lookup")
 		c.Seed = rapid.Uint64().Draw(t, "bmcSeed")
